@@ -585,34 +585,61 @@ end sync
 section async
 variable {m : Machine} {u : UEnv} {P : St → Prop} {C : Cand → Prop} {E : St → Cand → Prop}
 
-theorem asyncStep_equiv (hP : RunInv m u (hooksAsync u m) .async P C E) (e : Ev) {s s' : St}
+theorem asyncChainEnd_equiv (hP : RunInv m u (hooksAsync u m) .async P C E) (b : Nat) {s s' : St}
     (he : St.equiv m s s') (hs : P s) :
-    St.equiv m (asyncStep m u e s) (asyncStep m u e s') ∧ P (asyncStep m u e s) := by
-  unfold asyncStep
+    St.equiv m (asyncChainEnd b s) (asyncChainEnd b s') ∧ P (asyncChainEnd b s) := by
+  unfold asyncChainEnd
+  rw [← he.raiseDepth, ← he.queue]
+  split
+  · exact ⟨(he.setRaiseDepth 0).setQueue s.queue, hP.frame s _ rfl rfl hs⟩
+  · exact ⟨he, hs⟩
+
+theorem asyncPurge_equiv (hP : RunInv m u (hooksAsync u m) .async P C E) {s s' : St}
+    (he : St.equiv m s s') (hs : P s) :
+    St.equiv m (asyncPurge s) (asyncPurge s') ∧ P (asyncPurge s) := by
+  unfold asyncPurge
+  rw [← he.queue]
+  exact ⟨(he.setRaiseDepth 0).setQueue _, hP.frame s _ rfl rfl hs⟩
+
+theorem asyncProcess_equiv (hP : RunInv m u (hooksAsync u m) .async P C E) (e : Ev) {s s' : St}
+    (he : St.equiv m s s') (hs : P s) :
+    St.equiv m (asyncProcess m u e s) (asyncProcess m u e s') ∧ P (asyncProcess m u e s) := by
+  unfold asyncProcess
   rw [← he.raiseDepth]
-  by_cases hcut : s.raiseDepth > m.maxIterations
-  · rw [if_pos hcut, if_pos hcut, ← he.queue]
-    exact ⟨(he.setRaiseDepth 0).setQueue _, hP.frame s _ rfl rfl hs⟩
-  · rw [if_neg hcut, if_neg hcut]
-    have e1 : St.equiv m (emit ("#recv:" ++ e.type) s) (emit ("#recv:" ++ e.type) s') := he.emit _
-    have p1 : P (emit ("#recv:" ++ e.type) s) := hP.frame s _ rfl rfl hs
-    obtain ⟨e2, p2⟩ := processEvent_equiv' (hooksAsync_ok u m) (hooksAsync_perm u m) e hP e1 p1
-    obtain ⟨e3, p3⟩ := transientLoop_equiv' (hooksAsync_ok u m) (hooksAsync_perm u m) hP m.maxIterations e2 p2
-    simp only
-    generalize transientLoop (hooksAsync u m) .async m u m.maxIterations
-      (processEvent (hooksAsync u m) .async m u e (emit ("#recv:" ++ e.type) s)) = r at e3 p3
-    generalize transientLoop (hooksAsync u m) .async m u m.maxIterations
-      (processEvent (hooksAsync u m) .async m u e (emit ("#recv:" ++ e.type) s')) = r' at e3
-    by_cases herr : r.err.isSome = true
+  have e1 : St.equiv m (emit ("#recv:" ++ e.type) s) (emit ("#recv:" ++ e.type) s') := he.emit _
+  have p1 : P (emit ("#recv:" ++ e.type) s) := hP.frame s _ rfl rfl hs
+  obtain ⟨e2, p2⟩ := processEvent_equiv' (hooksAsync_ok u m) (hooksAsync_perm u m) e hP e1 p1
+  obtain ⟨e3, p3⟩ := transientLoop_equiv' (hooksAsync_ok u m) (hooksAsync_perm u m) hP m.maxIterations e2 p2
+  simp only
+  generalize transientLoop (hooksAsync u m) .async m u m.maxIterations
+    (processEvent (hooksAsync u m) .async m u e (emit ("#recv:" ++ e.type) s)) = r at e3 p3
+  generalize transientLoop (hooksAsync u m) .async m u m.maxIterations
+    (processEvent (hooksAsync u m) .async m u e (emit ("#recv:" ++ e.type) s')) = r' at e3
+  apply asyncChainEnd_equiv hP
+  · by_cases herr : r.err.isSome = true
     · have herr' : r'.err.isSome = true := e3.err ▸ herr
       rw [if_pos herr, if_pos herr', ← e3.errors]
-      exact ⟨⟨e3.cfg, e3.hist, e3.queue, e3.status, e3.trace, rfl, e3.ctx, e3.raiseDepth, rfl⟩,
-        hP.frame r _ rfl rfl p3⟩
+      exact ⟨e3.cfg, e3.hist, e3.queue, e3.status, e3.trace, rfl, e3.ctx, e3.raiseDepth, rfl⟩
     · have herr' : ¬ r'.err.isSome = true := e3.err ▸ herr
-      rw [if_neg herr, if_neg herr', ← e3.raiseDepth, ← e3.queue]
-      split
-      · exact ⟨(e3.setRaiseDepth 0).setQueue r.queue, hP.frame r _ rfl rfl p3⟩
-      · exact ⟨e3, p3⟩
+      rw [if_neg herr, if_neg herr']
+      exact e3
+  · split
+    · exact hP.frame r _ rfl rfl p3
+    · exact p3
+
+theorem asyncStep_equiv (hP : RunInv m u (hooksAsync u m) .async P C E) (q : QEv) {s s' : St}
+    (he : St.equiv m s s') (hs : P s) :
+    St.equiv m (asyncStep m u q s) (asyncStep m u q s') ∧ P (asyncStep m u q s) := by
+  unfold asyncStep
+  rw [← he.raiseDepth]
+  obtain ⟨e0, p0⟩ := asyncPurge_equiv hP he hs
+  by_cases hcut : s.raiseDepth > m.maxIterations
+  · rw [if_pos hcut, if_pos hcut]
+    split
+    · exact ⟨e0, p0⟩
+    · exact asyncProcess_equiv hP q.ev e0 p0
+  · rw [if_neg hcut, if_neg hcut]
+    exact asyncProcess_equiv hP q.ev he hs
 
 theorem asyncDrain_equiv (hP : RunInv m u (hooksAsync u m) .async P C E) :
     ∀ (fuel : Nat) {s s' : St}, St.equiv m s s' → P s →
@@ -638,7 +665,7 @@ theorem asyncDrain_equiv (hP : RunInv m u (hooksAsync u m) .async P C E) :
       | cons q rest =>
         have hq' : s'.queue = q :: rest := he.queue ▸ hq
         simp only [asyncDrain, hst, hst', hq, hq', ne_eq, not_true_eq_false, if_false]
-        obtain ⟨e2, p2⟩ := asyncStep_equiv hP q.ev ((he.setQueue rest).setStatus "running") (hP.frame s _ rfl rfl hs)
+        obtain ⟨e2, p2⟩ := asyncStep_equiv hP q ((he.setQueue rest).setStatus "running") (hP.frame s _ rfl rfl hs)
         exact ih e2 p2
     · have hst' : ¬ s'.status = "running" := he.status ▸ hst
       simp only [asyncDrain, hst, hst', ne_eq, not_false_eq_true, if_true]
